@@ -9,6 +9,7 @@ import Poulpy.Lemmas.CkksMulSem
 import Poulpy.Lemmas.CkksAutBal
 import Poulpy.Lemmas.CkksDot
 import Poulpy.Lemmas.CkksXProg
+import Poulpy.Lemmas.CkksRelin
 /-!
 # C16 — the CKKS evaluator tracks precision metadata through any straight-line program
 
@@ -1346,6 +1347,143 @@ example (big : Bool) : ∃ c', dDotPt env4 2 big xD [xA, xA] ptOne [pgOne, pgOne
       intro ap hap; simp only [List.mem_cons, List.mem_nil_iff, or_false] at hap
       rcases hap with rfl | rfl <;> decide)
   ⟨c', h, hd⟩
+
+/-! ### piece 5: `ckks_mul_into` (rank 1) — the ct × ct product contract discharged
+
+`MulAdm` (what `program_sem_x` asks of a ct × ct product) is a theorem for `ckks_mul_into` at rank 1:
+* the three tensor columns of `glwe_tensor_apply` — convolution accumulators **truncated** to `normalize_input_limb_bound_with_offset` limbs
+  (`Tensor.cnvTrunc_coeff`: `2·H₁` extra units, `H₁ = 4·L_b·N·2^b`), Karatsuba column `(a₀+a₁)(b₀+b₁) − a₀b₀ − a₁b₁` exact in wrapping
+  arithmetic on balanced digits (`Tensor.col1_eq`) — against the exact column products (`Tensor.tensor2_value`);
+* tensor phase under `(1, s₁, s₁²)` = product of the phases of the masked operands (`tensor_product_phase`; the ring identity is checked in
+  `ℤ[X]/(X^N+1)` and read back through `ι`);
+* `glwe_tensor_relinearize` = C03's key switch of the `s₁²` column (`relinearize_rank1`: literally `Ks.keyswitchInternal` of the fake
+  ciphertext `(T0, T2)` plus `T1` on column 1), value from `keyswitchInternal_value` + `covered_input_value` + `bigAdd_exact`, noise from
+  `normInf_errL_le` / `normInf_dropL_le`, normalisation from C08 (`relin_contract_discharged`), both accumulator widths;
+* scale bookkeeping (`compose_rel`, `relin_compose`).
+Remaining hypotheses: `RelinAdm` (C03's on the executed gadget product: tensor key in the evaluator's radix encrypting `s₁⋆s₁` under `s`
+with noise lists `EL`/`KL`, covered regime `ts ≤ min(key.size, dnum·dsize)`, accumulator head-room `Hp`, bounds `Gmax`/`Dmax` on the
+gadget-noise / dropped-limb terms of the executed tensor), covered offset regime, numeric head-room of the convolution accumulators. -/
+
+/-- **the tensor of a rank-1 product decrypts to the product of the masked operands' phases** -/
+theorem tensor_product_phase {N b : Nat} (hN : 0 < N) (big : Bool) (hb61 : b ≤ 61) {a bo : DCt}
+    (hma : Mask.MaskAdm N b 1 a.md.effK a.g) (hmb : Mask.MaskAdm N b 1 bo.md.effK bo.g) (ts cnv : Nat) (hts : 1 ≤ ts)
+    (hhi : (Core.cnvOffsetSplit b cnv).1 ≤ divCeil a.md.effK b + divCeil bo.md.effK b - 1)
+    (hroom : 2 ^ b * (4 * (divCeil bo.md.effK b : Int) * N * 2 ^ b) + 8 ≤ 2 ^ (KsDec.bitsOf big - 2))
+    (s : List Poly) (hs : s ≠ []) :
+    ∃ T0 T1 T2, Core.tensorApply false big N b ts cnv b (effCols b a.md.effK a.g) a.md.effK (effCols b bo.md.effK bo.g) bo.md.effK
+        (zeroC N (tensorCols a.g) ts) = some [T0, T1, T2] ∧
+      C02L.ColWF N ts T0 ∧ C02L.ColWF N ts T1 ∧ C02L.ColWF N ts T2 ∧
+      (∀ l ∈ T0, ∀ v ∈ l, |v| ≤ 2 ^ (b - 1)) ∧ (∀ l ∈ T1, ∀ v ∈ l, |v| ≤ 3 * 2 ^ (b - 1)) ∧ (∀ l ∈ T2, ∀ v ∈ l, |v| ≤ 2 ^ (b - 1)) ∧
+      ∀ t, t < N → ∃ q e : Int,
+        2 ^ (b * (divCeil a.md.effK b + divCeil bo.md.effK b) + (-(Core.cnvOffsetSplit b cnv).2).toNat) *
+            (Tensor.tensorPhase (s.getD 0 []) (C02L.valP b N T0) (C02L.valP b N T1) (C02L.valP b N T2)).getD t 0
+          = 2 ^ (cnv + (-(Core.cnvOffsetSplit b cnv).2).toNat) * 2 ^ (b * ts) *
+              (Hal.negMul (phaseP s N (Mask.masked N b a.md.effK a.g)) (phaseP s N (Mask.masked N b bo.md.effK bo.g))).getD t 0
+            + e + q * 2 ^ (b * ts + (b * (divCeil a.md.effK b + divCeil bo.md.effK b) + (-(Core.cnvOffsetSplit b cnv).2).toNat)) ∧
+        |e| ≤ tensorU N b (divCeil bo.md.effK b) (s.getD 0 []) *
+          2 ^ (b * (divCeil a.md.effK b + divCeil bo.md.effK b) + (-(Core.cnvOffsetSplit b cnv).2).toNat) :=
+  tensor_of_dok hN big hb61 hma hmb ts cnv hts hhi hroom s hs
+
+def xTwo_ok : DOK env4 2 1 xTwo := ⟨by decide, rfl, rfl, by decide⟩
+def xTwo_adm : Mask.MaskAdm 2 4 1 xTwo.md.effK xTwo.g :=
+  ⟨⟨by decide, rfl, rfl, by decide⟩, by decide, by decide, by decide, by decide⟩
+
+def roomT (big : Bool) : (2 : Int) ^ 4 * (4 * ((divCeil xTwo.md.effK 4 : Nat) : Int) * ((2 : Nat) : Int) * 2 ^ 4) + 8 ≤ 2 ^ (KsDec.bitsOf big - 2) := by
+  cases big <;> (show (2 : Int) ^ 4 * (4 * ((1 : Nat) : Int) * ((2 : Nat) : Int) * 2 ^ 4) + 8 ≤ _; norm_num [KsDec.bitsOf])
+
+example (big : Bool) : ∃ T0 T1 T2, Core.tensorApply false big 2 4 3 12 4 (effCols 4 xA.md.effK xA.g) xA.md.effK
+    (effCols 4 xTwo.md.effK xTwo.g) xTwo.md.effK (zeroC 2 (tensorCols xA.g) 3) = some [T0, T1, T2] ∧ C02L.ColWF 2 3 T1 :=
+  let ⟨T0, T1, T2, h, _, w1, _⟩ := tensor_product_phase (N := 2) (b := 4) (by norm_num) big (by norm_num) xA_adm xTwo_adm 3 12 (by norm_num)
+    (by decide) (roomT big) [[1, 1]] (by simp)
+  ⟨T0, T1, T2, h, w1⟩
+
+/-- **the relinearisation contract discharged** on the executed tensor (C03 + C08, both accumulator widths) -/
+theorem relin_contract_discharged {big : Bool} {N b ts : Nat} (hN : 0 < N) (hb1 : 1 ≤ b) (hb62 : b ≤ 62) {g : Core.GGLWE} {s : List Poly}
+    {EL KL : ℕ → ℕ → Poly} {Hp Gmax Dmax : Int} {T0 T1 T2 : Col} (h : RelinAdm big N b ts g s EL KL Hp Gmax Dmax T0 T2) (rs : Nat)
+    (w0 : C02L.ColWF N ts T0) (w1 : C02L.ColWF N ts T1) (w2 : C02L.ColWF N ts T2)
+    (d0 : ∀ l ∈ T0, ∀ v ∈ l, |v| ≤ 2 ^ (b - 1)) (d1 : ∀ l ∈ T1, ∀ v ∈ l, |v| ≤ 3 * 2 ^ (b - 1)) (d2 : ∀ l ∈ T2, ∀ v ∈ l, |v| ≤ 2 ^ (b - 1)) :
+    RelinContractAt N b ts rs ⟨big, g⟩ s (relinU b rs g.size s Gmax Dmax) T0 T1 T2 :=
+  relinContract_of_adm hN hb1 hb62 h rs w0 w1 w2 d0 d1 d2
+
+/-- a three-limb tensor key with zero limbs: as a key for the secret `1 + X` its noise lists are `−(1+X)²·β^…` (`Ks.keyErrL`) -/
+def zk43 : Core.GGLWE := { base2k := 4, n := 2, colsIn := 1, colsOut := 2, dsize := 1, dnum := 3, size := 3, cells := [[[[0, 0], [0, 0], [0, 0]], [[0, 0], [0, 0], [0, 0]]], [[[0, 0], [0, 0], [0, 0]], [[0, 0], [0, 0], [0, 0]]], [[[0, 0], [0, 0], [0, 0]], [[0, 0], [0, 0], [0, 0]]]] }
+
+def zkEL : ℕ → ℕ → Poly := Ks.keyErrL 2 4 [[1, 1]] zk43.toKey (fun _ => Hal.negMul [1, 1] [1, 1])
+
+/-- C03's hypotheses on the relinearisation of the tensor of `xA · xTwo` with `zk43` -/
+def zk43_adm (big : Bool) : RelinAdm big 2 4 3 zk43 [[1, 1]] zkEL (fun _ _ => [0, 0]) 0
+    (KsDec.gadgetBound 2 4 (KsDec.aDftOf (relinCt 4 2 [[-6, -4], [0, 0], [0, 0]] [[0, 0], [0, 0], [0, 0]])) zk43.toKey zkEL)
+    (KsDec.dropBound 2 4 [[1, 1]] (KsDec.aDftOf (relinCt 4 2 [[-6, -4], [0, 0], [0, 0]] [[0, 0], [0, 0], [0, 0]])) zk43.toKey)
+    [[-6, -4], [0, 0], [0, 0]] [[0, 0], [0, 0], [0, 0]] where
+  hgb := rfl
+  hgn := rfl
+  hci := rfl
+  hco := rfl
+  hD := by decide
+  hM := Ks.entry_length zk43.toPMat 2 rfl (by decide)
+  hS := by decide
+  hcov1 := by decide
+  hcov2 := by decide
+  hs := by simp
+  hs1 := rfl
+  hEL := fun i r => Ks.keyErrL_length 2 4 _ zk43.toKey _ i r (by decide) (Ks.entry_length zk43.toPMat 2 rfl (by decide)) (fun _ => rfl)
+  hKL := fun _ _ => rfl
+  hkey := by
+    intro i hi r _
+    have hi0 : i = 0 := by omega
+    subst hi0
+    have hz : Ks.ι 2 [0, 0] = 0 := Ks.ι_zero 2 2
+    have h := Ks.keyErrL_spec 2 4 [[1, 1]] zk43.toKey (fun _ => Hal.negMul [1, 1] [1, 1]) 0 r (by decide)
+      (Ks.entry_length zk43.toPMat 2 rfl (by decide)) (fun _ => rfl)
+    rw [hz, mul_zero, add_zero]
+    exact h
+  hHp0 := le_refl _
+  hAcc := by cases big <;> (show (0 : Int) + 3 * 2 ^ (4 - 1) + 8 ≤ _; norm_num [KsDec.bitsOf])
+  hprod := by
+    intro i hi
+    have : i = 0 ∨ i = 1 := by omega
+    rcases this with rfl | rfl
+    · decide
+    · decide
+  hG := le_refl _
+  hDr := le_refl _
+
+/-- **`ckks_mul_into` (rank 1): the ct × ct product contract discharged end to end** -/
+theorem mul_ct_contract_discharged {env : Env} (he : EnvOK env) {N : Nat} (hN : 0 < N) {mk : MulKey} {dst a b : DCt} {Hd : Int}
+    (hd : GB N env.base2k 1 Hd dst.g) (ha : DOK env N 1 a) (hb : DOK env N 1 b) {m : Ct}
+    (hm : mulInto env dst.ct a.ct b.ct = .ok m) {q : MulP} (hq : mulCtParams env dst.ct a.ct b.ct = .ok q)
+    (hhi : (Core.cnvOffsetSplit env.base2k q.cnv).1 ≤ divCeil a.md.effK env.base2k + divCeil b.md.effK env.base2k - 1)
+    (hroom : 2 ^ env.base2k * (4 * (divCeil b.md.effK env.base2k : Int) * N * 2 ^ env.base2k) + 8 ≤ 2 ^ (KsDec.bitsOf mk.big - 2))
+    {s : List Poly} (hs : s ≠ []) {EL KL : ℕ → ℕ → Poly} {Hp Gmax Dmax : Int}
+    (hadm : ∀ T0 T1 T2, Core.tensorApply false mk.big N env.base2k (max a.g.size b.g.size) q.cnv env.base2k
+        (effCols env.base2k a.md.effK a.g) a.md.effK (effCols env.base2k b.md.effK b.g) b.md.effK
+        (zeroC N (tensorCols a.g) (max a.g.size b.g.size)) = some [T0, T1, T2] →
+      RelinAdm mk.big N env.base2k (max a.g.size b.g.size) mk.tsk s EL KL Hp Gmax Dmax T0 T2) :
+    MulAdm env N 1 s (mulCtU N env.base2k (divCeil b.md.effK env.base2k) (max a.g.size b.g.size) dst.g.size (s.getD 0 [])
+        (relinU env.base2k dst.g.size mk.tsk.size s Gmax Dmax) : Int)
+      dst a b (dMulInto env N mk dst a b) q :=
+  mulAdm_discharged he hN hd ha hb hm hq hhi hroom hs hadm
+
+/-- the executed product `xA · xTwo` with the key `zk43` under the secret `1 + X`: `Ok`, balanced digits, and the contract holds -/
+example (big : Bool) : ∃ c', dMulInto env4 2 ⟨big, zk43⟩ xProd xA xTwo = .ok c' ∧ DOK env4 2 1 c' := by
+  have hq : mulCtParams env4 xProd.ct xA.ct xTwo.ct = .ok ⟨0, 0, 12⟩ := by decide
+  have hT : Core.tensorApply false big 2 4 3 12 4 (effCols 4 xA.md.effK xA.g) xA.md.effK (effCols 4 xTwo.md.effK xTwo.g) xTwo.md.effK
+      (zeroC 2 (tensorCols xA.g) 3) = some [[[-6, -4], [0, 0], [0, 0]], [[4, 4], [0, 0], [0, 0]], [[0, 0], [0, 0], [0, 0]]] := by
+    cases big <;> decide +kernel
+  obtain ⟨c', h, _, _, hd, _⟩ := mul_ct_contract_discharged (env := env4) env4_ok (N := 2) (by norm_num) (mk := ⟨big, zk43⟩) (dst := xProd)
+    (a := xA) (b := xTwo) (Hd := 908) ⟨by decide, rfl, rfl, by decide⟩ xA_ok xTwo_ok (m := ⟨⟨0, 0⟩, 1⟩) (by decide) hq (by decide) (roomT big)
+    (s := [[1, 1]]) (by simp) (EL := zkEL) (KL := fun _ _ => [0, 0]) (Hp := 0)
+    (fun T0 T1 T2 ht => by
+      have ht' : Core.tensorApply false big 2 4 3 12 4 (effCols 4 xA.md.effK xA.g) xA.md.effK (effCols 4 xTwo.md.effK xTwo.g)
+          xTwo.md.effK (zeroC 2 (tensorCols xA.g) 3) = some [T0, T1, T2] := ht
+      rw [hT] at ht'
+      injection ht' with ht'
+      injection ht' with h0 ht'
+      injection ht' with h1 ht'
+      injection ht' with h2 _
+      subst h0; subst h2
+      exact zk43_adm big)
+  exact ⟨c', h, hd⟩
 
 /-- **one call of a program with products, rotations and sums** on tracked states -/
 theorem step_sem_x {env : Env} (he : EnvOK env) {N r : Nat} (hN : 0 < N) {mk : MulKey} {ak : AutKeys} {pool : DPool}
